@@ -5,7 +5,7 @@
     some source, exactly the copy of the first source holding it ([owner]).
     Under the LSM ordering invariant that copy is the most recent write, and a
     seek on the merged stream answers like the point read [get]. *)
-From Coq Require Import List Arith NArith Bool Lia Sorting.Sorted.
+From Coq Require Import List Arith NArith Bool Lia Sorting.Sorted Init.Byte.
 From NoKV Require Import Base.Bytes Base.Num Model.Keys Model.Lsm Spec.MvccSpec Proofs.LsmOrder Spec.LsmSpec
      Proofs.LsmRead Proofs.LsmGet Proofs.LsmMain Proofs.LsmInv Proofs.LsmPreserve Proofs.LsmCompact
      Model.LsmIter Spec.IterSpec.
@@ -362,3 +362,526 @@ Theorem stream_get s k v :
   iter_inv s -> seq_functional (all_recs (tiers_of s)) ->
   src_search k v (db_stream current s false PRewind) = get s k v.
 Proof. rewrite db_stream_fwd. apply fstream_get. Qed.
+
+(** * Part B: sorted lists are determined by their elements *)
+Lemma ssorted_ext {A} (lt : A -> A -> Prop) :
+  (forall a, ~ lt a a) -> (forall a b c, lt a b -> lt b c -> lt a c) ->
+  forall l1 l2, StronglySorted lt l1 -> StronglySorted lt l2 -> (forall x, In x l1 <-> In x l2) -> l1 = l2.
+Proof.
+  intros Hirr Htr. induction l1 as [|a l1 IH]; intros l2 H1 H2 Hm.
+  - destruct l2 as [|b l2]; [reflexivity|]. exfalso. apply (proj2 (Hm b)). now left.
+  - destruct l2 as [|b l2]; [exfalso; apply (proj1 (Hm a)); now left|].
+    inversion H1 as [|? ? Hs1 Hf1]; subst. inversion H2 as [|? ? Hs2 Hf2]; subst.
+    rewrite Forall_forall in Hf1, Hf2.
+    assert (a = b) as <-.
+    { destruct (proj1 (Hm a) (or_introl eq_refl)) as [E|Ha]; [now symmetry|].
+      destruct (proj2 (Hm b) (or_introl eq_refl)) as [E|Hb]; [exact E|].
+      exfalso. apply (Hirr a). eapply Htr; [apply Hf1; exact Hb | apply Hf2; exact Ha]. }
+    f_equal. apply IH; [exact Hs1 | exact Hs2|]. intro x. split; intro Hx.
+    + destruct (proj1 (Hm x) (or_intror Hx)) as [E|Hx']; [|exact Hx'].
+      subst x. exfalso. apply (Hirr a). now apply Hf1.
+    + destruct (proj2 (Hm x) (or_intror Hx)) as [E|Hx']; [|exact Hx'].
+      subst x. exfalso. apply (Hirr a). now apply Hf2.
+Qed.
+
+Lemma sorted_ext l1 l2 : sorted l1 -> sorted l2 -> (forall x, In x l1 <-> In x l2) -> l1 = l2.
+Proof. apply ssorted_ext; [exact rlt_irrefl | exact rlt_trans]. Qed.
+
+Lemma sorted_filter f l : sorted l -> sorted (filter f l).
+Proof.
+  induction l as [|x l IH]; intro H; cbn [filter]; [constructor|].
+  apply sorted_cons_inv in H as [Hs Hf]. destruct (f x); [|now apply IH].
+  constructor; [now apply IH|]. rewrite Forall_forall in *. intros y Hy. apply filter_In in Hy as [Hy _]. auto.
+Qed.
+
+(** * The readTs filter commutes with the merge *)
+Lemma find_filter_ver x (p : rec -> bool) a :
+  (forall y, ik_eqb x y = true -> p y = p x) ->
+  find (ik_eqb x) (filter p a) = if p x then find (ik_eqb x) a else None.
+Proof.
+  intro Hp. induction a as [|z a IH]; cbn [filter find]; [now destruct (p x)|].
+  destruct (ik_eqb x z) eqn:E.
+  - rewrite (Hp z E). destruct (p x) eqn:Ep; cbn [find]; [now rewrite E | exact IH].
+  - destruct (p z); cbn [find]; [rewrite E|]; exact IH.
+Qed.
+
+Lemma owner_filter x (p : rec -> bool) srcs :
+  (forall y, ik_eqb x y = true -> p y = p x) ->
+  owner x (map (filter p) srcs) = if p x then owner x srcs else None.
+Proof.
+  intro Hp. induction srcs as [|a T IH]; cbn [map owner]; [now destruct (p x)|].
+  rewrite (find_filter_ver x p a Hp), IH. destruct (p x); reflexivity.
+Qed.
+
+Lemma visible_ik readTs x y : ik_eqb x y = true -> visible readTs y = visible readTs x.
+Proof. intro H. apply ik_eqb_spec in H as [_ Hv]. unfold visible. now rewrite Hv. Qed.
+
+Lemma txn_stream_fwd s readTs :
+  iter_inv s -> txn_stream current s false readTs [] PRewind = filter (visible readTs) (fstream s).
+Proof.
+  intro Hi. unfold txn_stream. cbn [app dcmp].
+  assert (Hsrc : Forall sorted (lsm_sources current s)) by (apply lsm_sources_sorted, Hi).
+  assert (Hsrc' : Forall sorted (map (fun l => filter (visible readTs) (lsm_pos false PRewind l)) (lsm_sources current s))).
+  { apply Forall_forall. intros l Hl. apply in_map_iff in Hl as (a & <- & Ha). cbn [lsm_pos].
+    apply sorted_filter. rewrite Forall_forall in Hsrc. auto. }
+  destruct (mtree_owns _ Hsrc') as [Hs1 Hm1]. destruct (mtree_owns _ Hsrc) as [Hs2 Hm2].
+  apply sorted_ext; [exact Hs1 | apply sorted_filter; exact Hs2|].
+  intro x. rewrite Hm1, filter_In. fold (fstream s). unfold fstream. rewrite Hm2.
+  change (map (fun l => filter (visible readTs) (lsm_pos false PRewind l)) (lsm_sources current s))
+    with (map (filter (visible readTs)) (lsm_sources current s)).
+  rewrite (owner_filter x (visible readTs) _ (visible_ik readTs x)).
+  destruct (visible readTs x); split; try tauto; try discriminate. intros [_ H]. discriminate.
+Qed.
+
+(** * Next* as a structural function *)
+Fixpoint trun (c : cfg) (now readTs : N) (o : topts) (last : bytes) (l : list rec) : list item :=
+  match l with
+  | [] => []
+  | x :: l' =>
+      match judge c now readTs o last x with
+      | VSkip last' => trun c now readTs o last' l'
+      | VStop => []
+      | VEmit => mk_item x :: trun c now readTs o (snd (split_base (r_key x))) l'
+      end
+  end.
+
+Lemma collect_fuel_trun c now readTs o : forall l f last,
+  (length l < f)%nat -> collect_fuel c now readTs o f last l = trun c now readTs o last l.
+Proof.
+  induction l as [|x l IH]; intros f last Hf; destruct f as [|f]; try (cbn in Hf; lia).
+  - reflexivity.
+  - cbn [length] in Hf.
+    assert (Hadv : forall last0, adv c now readTs o last0 (x :: l) =
+              match judge c now readTs o last0 x with
+              | VSkip last' => adv c now readTs o last' l
+              | VStop => (None, last0, l)
+              | VEmit => (Some (mk_item x), snd (split_base (r_key x)), l)
+              end) by reflexivity.
+    cbn [collect_fuel trun]. rewrite Hadv. destruct (judge c now readTs o last x) as [last'| |].
+    + specialize (IH (S f) last' ltac:(lia)). cbn [collect_fuel] in IH. exact IH.
+    + reflexivity.
+    + f_equal. apply IH. lia.
+Qed.
+
+Lemma collect_trun c now readTs o last l : collect c now readTs o last l = trun c now readTs o last l.
+Proof. apply collect_fuel_trun. lia. Qed.
+
+(** * Keys *)
+Definition wf_key (x : rec) : bool :=
+  let '(_, u, ok) := decode_key_cf (r_key x) in ok && nonempty u.
+
+Lemma wf_key_enc x : wf_key x = true ->
+  exists cf u, split_base (r_key x) = (cf, u) /\ r_key x = enc_cf_key cf u /\ cf <= 2 /\ u <> [].
+Proof.
+  unfold wf_key, split_base, decode_key_cf. destruct (r_key x) as [|a [|b [|c [|d u]]]]; try discriminate.
+  destruct (byte_eqb a xff && byte_eqb b x43 && byte_eqb c x46 && cf_valid (b2n d)) eqn:E; [|discriminate].
+  intro H. cbn [andb] in H. exists (b2n d), u.
+  apply andb_true_iff in E as [E Hcf]. apply andb_true_iff in E as [E Hc]. apply andb_true_iff in E as [Ha Hb].
+  apply byte_eqb_eq in Ha, Hb, Hc. subst. unfold cf_valid in Hcf. apply N.leb_le in Hcf.
+  split; [reflexivity|]. split.
+  - unfold enc_cf_key, cf_marker, norm_cf, cf_valid. rewrite (proj2 (N.leb_le _ _) Hcf), n2b_b2n. reflexivity.
+  - split; [exact Hcf|]. destruct u; [discriminate | discriminate].
+Qed.
+
+Lemma bytes_cmp_app_prefix p a b : bytes_cmp (p ++ a) (p ++ b) = bytes_cmp a b.
+Proof. induction p as [|x p IH]; cbn [app bytes_cmp]; [reflexivity|]. now rewrite N.compare_refl. Qed.
+
+Lemma enc0_cmp a b : bytes_cmp (enc_cf_key 0 a) (enc_cf_key 0 b) = bytes_cmp a b.
+Proof.
+  unfold enc_cf_key. change (cf_marker ++ n2b (norm_cf 0) :: a) with ((cf_marker ++ [n2b (norm_cf 0)]) ++ a).
+  change (cf_marker ++ n2b (norm_cf 0) :: b) with ((cf_marker ++ [n2b (norm_cf 0)]) ++ b).
+  apply bytes_cmp_app_prefix.
+Qed.
+
+Lemma bytes_leb_antisym a b : bytes_leb a b = true -> bytes_leb b a = true -> a = b.
+Proof.
+  unfold bytes_leb. rewrite (bytes_cmp_antisym a b). destruct (bytes_cmp a b) eqn:E; cbn; try discriminate.
+  - intros _ _. now apply bytes_cmp_eq.
+Qed.
+
+(** * Forward scan without AllVersions = the newest visible version of each key *)
+Definition keyfilt (o : topts) (x : rec) : bool :=
+  let '(cf, u) := split_base (r_key x) in
+  (cf =? cf_default)
+  && negb (nonempty (o_lower o) && bytes_ltb u (o_lower o))
+  && negb (nonempty (o_upper o) && bytes_leb (o_upper o) u)
+  && negb (nonempty (o_prefix o) && negb (if o_pik o then bytes_eqb u (o_prefix o) else is_prefix (o_prefix o) u)).
+Definition since_ok (o : topts) (x : rec) : bool := negb ((0 <? o_since o) && (r_ver x <=? o_since o)).
+Definition good (now : N) (o : topts) (x : rec) : bool := keyfilt o x && since_ok o x && negb (deadb now x).
+
+Definition same_key (p : option rec) (x : rec) : bool :=
+  match p with Some p => bytes_eqb (r_key p) (r_key x) | None => false end.
+
+Fixpoint pick (g : rec -> bool) (prev : option rec) (l : list rec) : list rec :=
+  match l with
+  | [] => []
+  | x :: l' => (if negb (same_key prev x) && g x then [x] else []) ++ pick g (Some x) l'
+  end.
+
+Lemma pick_nil g : forall l prev, (forall y, In y l -> g y = false) -> pick g prev l = [].
+Proof.
+  induction l as [|x l IH]; intros prev H; cbn [pick]; [reflexivity|].
+  rewrite (H x (or_introl eq_refl)), andb_false_r. cbn [app]. apply IH. intros y Hy. apply H. now right.
+Qed.
+
+Lemma judge_fwd now readTs o last x cf u :
+  o_rev o = false -> o_all o = false -> r_ver x <= readTs -> split_base (r_key x) = (cf, u) ->
+  judge current now readTs o last x =
+    if negb (cf =? cf_default) then VSkip last
+    else if nonempty (o_lower o) && bytes_ltb u (o_lower o) then VSkip last
+    else if nonempty (o_upper o) && bytes_leb (o_upper o) u then VStop
+    else if (0 <? o_since o) && (r_ver x <=? o_since o) then VSkip last
+    else if nonempty (o_prefix o) && negb (if o_pik o then bytes_eqb u (o_prefix o) else is_prefix (o_prefix o) u) then VSkip last
+    else if nonempty last && bytes_eqb last u then VSkip last
+    else if deadb now x then VSkip u
+    else VEmit.
+Proof.
+  intros Hr Ha Hv Hs. unfold judge. rewrite Hs, Hr, Ha. cbn [current fix_txn_cf fix_tomb_last negb andb].
+  assert (readTs <? r_ver x = false) as -> by (apply N.ltb_ge; exact Hv). reflexivity.
+Qed.
+
+Definition psorted (prev : option rec) (l : list rec) : Prop :=
+  match prev with Some p => sorted (p :: l) | None => sorted l end.
+
+Definition inv (o : topts) (last : bytes) (prev : option rec) : Prop :=
+  match prev with
+  | None => last = []
+  | Some p => (last = [] \/ bytes_leb (enc_cf_key 0 last) (r_key p) = true)
+              /\ (keyfilt o p = true -> since_ok o p = true -> last = snd (split_base (r_key p)))
+  end.
+
+Lemma psorted_tail prev x l : psorted prev (x :: l) -> psorted (Some x) l.
+Proof. destruct prev as [p|]; cbn [psorted]; intro H; [now apply sorted_cons_inv in H as [H _] | exact H]. Qed.
+
+Lemma psorted_prev_le p x l : psorted (Some p) (x :: l) -> bytes_leb (r_key p) (r_key x) = true.
+Proof. cbn [psorted]. intro H. apply (sorted_head_le p (x :: l) x H). right. now left. Qed.
+
+Lemma trun_pick now readTs o :
+  o_rev o = false -> o_all o = false ->
+  forall l last prev,
+    psorted prev l -> Forall (fun x => wf_key x = true) l -> Forall (fun x => r_ver x <= readTs) l ->
+    inv o last prev ->
+    trun current now readTs o last l = map mk_item (pick (good now o) prev l).
+Proof.
+  intros Hr Ha. induction l as [|x l IH]; intros last prev Hs Hw Hv Hi; [reflexivity|].
+  inversion Hw as [|? ? Hwx Hwl]; subst. inversion Hv as [|? ? Hvx Hvl]; subst.
+  destruct (wf_key_enc x Hwx) as (cf & u & Hsp & Hk & Hcf & Hu).
+  pose proof (psorted_tail _ _ _ Hs) as Hs'.
+  cbn [trun pick]. rewrite (judge_fwd now readTs o last x cf u Hr Ha Hvx Hsp).
+  (* the part of the invariant that survives any skip that leaves lastKey alone *)
+  assert (Hfirst : last = [] \/ bytes_leb (enc_cf_key 0 last) (r_key x) = true).
+  { destruct prev as [p|]; cbn [inv] in Hi; [|now left]. destruct Hi as [[Hi|Hi] _]; [now left|]. right.
+    eapply bytes_leb_trans; [exact Hi | now apply (psorted_prev_le p x l)]. }
+  assert (Hkf : keyfilt o x =
+                (cf =? cf_default)
+                && negb (nonempty (o_lower o) && bytes_ltb u (o_lower o))
+                && negb (nonempty (o_upper o) && bytes_leb (o_upper o) u)
+                && negb (nonempty (o_prefix o) && negb (if o_pik o then bytes_eqb u (o_prefix o) else is_prefix (o_prefix o) u)))
+    by (unfold keyfilt; now rewrite Hsp).
+  assert (Hskip : forall b, keyfilt o x && since_ok o x = false ->
+            trun current now readTs o last l = map mk_item ((if b && good now o x then [x] else []) ++ pick (good now o) (Some x) l)).
+  { intros b Hbad. unfold good. rewrite Hbad, andb_false_r. cbn [andb app]. apply IH; auto.
+    cbn [inv]. split; [exact Hfirst|]. intros H1 H2. rewrite H1, H2 in Hbad. discriminate. }
+  destruct (cf =? cf_default) eqn:Ecf; cbn [negb].
+  2:{ apply Hskip. rewrite Hkf. reflexivity. }
+  apply N.eqb_eq in Ecf. subst cf.
+  destruct (nonempty (o_lower o) && bytes_ltb u (o_lower o)) eqn:Elo.
+  { apply Hskip. rewrite Hkf. reflexivity. }
+  destruct (nonempty (o_upper o) && bytes_leb (o_upper o) u) eqn:Eup.
+  { (* upper bound reached: nothing after it qualifies *)
+    assert (Hgx : good now o x = false) by (unfold good; rewrite Hkf; reflexivity).
+    rewrite Hgx, andb_false_r. cbn [app]. rewrite pick_nil; [reflexivity|].
+    intros y Hy. rewrite Forall_forall in Hwl. destruct (wf_key_enc y (Hwl y Hy)) as (cfy & uy & Hspy & Hky & _ & _).
+    unfold good, keyfilt. rewrite Hspy. destruct (cfy =? cf_default) eqn:Ey; [|reflexivity].
+    apply N.eqb_eq in Ey. subst cfy. apply andb_true_iff in Eup as [Hne Hle]. rewrite Hne.
+    assert (Hxy : bytes_leb u uy = true).
+    { cbn [psorted] in Hs'. pose proof (sorted_head_le x l y Hs' (or_intror Hy)) as H.
+      rewrite Hk, Hky in H. unfold bytes_leb in *. now rewrite enc0_cmp in H. }
+    rewrite (bytes_leb_trans _ _ _ Hle Hxy). cbn [negb andb]. rewrite andb_false_r. reflexivity. }
+  destruct ((0 <? o_since o) && (r_ver x <=? o_since o)) eqn:Esi.
+  { apply Hskip. unfold since_ok. rewrite Esi. apply andb_false_r. }
+  destruct (nonempty (o_prefix o) && negb (if o_pik o then bytes_eqb u (o_prefix o) else is_prefix (o_prefix o) u)) eqn:Epf.
+  { apply Hskip. rewrite Hkf. cbn [negb andb]. rewrite ?andb_false_r. reflexivity. }
+  assert (Hkx : keyfilt o x = true) by (rewrite Hkf; reflexivity).
+  assert (Hsx : since_ok o x = true) by (unfold since_ok; now rewrite Esi).
+  assert (Hux : snd (split_base (r_key x)) = u) by now rewrite Hsp.
+  destruct (nonempty last && bytes_eqb last u) eqn:Elk.
+  { (* an older version of the key advance already dealt with *)
+    apply andb_true_iff in Elk as [Hne Hlu]. apply bytes_eqb_eq in Hlu. subst last.
+    assert (Hsame : same_key prev x = true).
+    { destruct prev as [p|]; cbn [inv] in Hi; [|subst; discriminate].
+      destruct Hfirst as [->|_]; [discriminate|]. destruct Hi as [[->|Hi] _]; [discriminate|].
+      cbn [same_key]. apply bytes_eqb_eq. apply bytes_leb_antisym; [now apply (psorted_prev_le p x l)|].
+      now rewrite Hk. }
+    rewrite Hsame. cbn [negb andb app]. apply IH; auto. cbn [inv]. split; [right; rewrite Hk; apply bytes_leb_refl|].
+    intros _ _. now rewrite Hux. }
+  (* the newest visible version of its key *)
+  assert (Hnew : same_key prev x = false).
+  { destruct prev as [p|]; [|reflexivity]. cbn [same_key]. destruct (bytes_eqb (r_key p) (r_key x)) eqn:E; [|reflexivity].
+    exfalso. apply bytes_eqb_eq in E. cbn [inv] in Hi. destruct Hi as [_ Hi].
+    assert (Hkp : keyfilt o p = true) by (unfold keyfilt in *; now rewrite E).
+    assert (Hsp' : since_ok o p = true).
+    { cbn [psorted] in Hs. apply sorted_cons_inv in Hs as [_ Hf]. rewrite Forall_forall in Hf.
+      specialize (Hf x (or_introl eq_refl)). unfold rlt, rcmp in Hf. apply kcmp_lt in Hf as [Hf|[_ Hf]].
+      - rewrite E, bytes_cmp_refl in Hf. discriminate.
+      - unfold since_ok in *. destruct (0 <? o_since o); [|reflexivity]. cbn [andb negb] in *.
+        apply negb_true_iff, N.leb_gt in Hsx. apply negb_true_iff, N.leb_gt. lia. }
+    specialize (Hi Hkp Hsp'). rewrite E, Hux in Hi. subst last.
+    assert (nonempty u = true) by (destruct u; [contradiction | reflexivity]).
+    rewrite H, bytes_eqb_refl in Elk. discriminate. }
+  rewrite Hnew. cbn [negb andb]. unfold good at 1. rewrite Hkx, Hsx. cbn [andb].
+  assert (Hnext : inv o u (Some x)).
+  { cbn [inv]. split; [right; rewrite Hk; apply bytes_leb_refl | intros _ _; now rewrite Hux]. }
+  destruct (deadb now x); cbn [negb app map].
+  - apply IH; auto.
+  - rewrite Hux. f_equal. apply IH; auto.
+Qed.
+
+(** * What [pick] selects *)
+Lemma pick_incl g : forall l prev x, In x (pick g prev l) -> In x l.
+Proof.
+  induction l as [|x0 l IH]; intros prev x; cbn [pick]; [intros []|].
+  intro H. apply in_app_or in H as [H|H].
+  - destruct (negb (same_key prev x0) && g x0); [destruct H as [<-|[]]; now left | contradiction].
+  - right. eapply IH; eauto.
+Qed.
+
+Lemma pick_sorted g : forall l prev, sorted l -> sorted (pick g prev l).
+Proof.
+  induction l as [|x0 l IH]; intros prev Hs; cbn [pick]; [constructor|].
+  apply sorted_cons_inv in Hs as [Hs Hf].
+  destruct (negb (same_key prev x0) && g x0); cbn [app]; [|now apply IH].
+  constructor; [now apply IH|]. rewrite Forall_forall in *. intros y Hy. apply Hf. eapply pick_incl; eauto.
+Qed.
+
+Lemma rlt_same_key_ver a b : rlt a b -> r_key a = r_key b -> r_ver b < r_ver a.
+Proof.
+  unfold rlt, rcmp. intros H E. apply kcmp_lt in H as [H|[_ H]]; [|exact H].
+  rewrite E, bytes_cmp_refl in H. discriminate.
+Qed.
+
+Lemma pick_in g : forall l prev x,
+  psorted prev l ->
+  (In x (pick g prev l) <->
+   In x l /\ g x = true /\ same_key prev x = false /\ forall y, In y l -> r_key y = r_key x -> r_ver y <= r_ver x).
+Proof.
+  induction l as [|x0 l IH]; intros prev x Hs; cbn [pick]; [split; [intros [] | intros [[] _]]|].
+  pose proof (psorted_tail _ _ _ Hs) as Hs'. cbn [psorted] in Hs'.
+  pose proof (sorted_cons_inv _ _ Hs') as [Hsl Hf]. rewrite Forall_forall in Hf.
+  rewrite in_app_iff, (IH (Some x0) x Hs'). split.
+  - intros [H|(Hin & Hg & Hsk & Hmax)].
+    + destruct (negb (same_key prev x0) && g x0) eqn:E; [|contradiction]. destruct H as [<-|[]].
+      apply andb_true_iff in E as [E1 E2]. apply negb_true_iff in E1.
+      split; [now left|]. split; [exact E2|]. split; [exact E1|].
+      intros y [<-|Hy] Hk; [lia|]. pose proof (rlt_same_key_ver _ _ (Hf y Hy) (eq_sym Hk)). lia.
+    + cbn [same_key] in Hsk. apply bytes_eqb_neq in Hsk.
+      split; [now right|]. split; [exact Hg|]. split.
+      * destruct prev as [p|]; [|reflexivity]. cbn [same_key]. apply bytes_eqb_neq. intro E.
+        apply Hsk. apply bytes_leb_antisym; [apply rlt_key_le; now apply Hf|].
+        rewrite <- E. now apply (psorted_prev_le p x0 l).
+      * intros y [<-|Hy] Hk; [contradiction | now apply Hmax].
+  - intros ([<-|Hin] & Hg & Hsk & Hmax).
+    + left. rewrite Hsk, Hg. now left.
+    + right. split; [exact Hin|]. split; [exact Hg|]. split.
+      * cbn [same_key]. apply bytes_eqb_neq. intro E.
+        pose proof (Hmax x0 (or_introl eq_refl) E). pose proof (rlt_same_key_ver _ _ (Hf x Hin) E). lia.
+      * intros y Hy. apply Hmax. now right.
+Qed.
+
+(** [src_search] characterised *)
+Lemma src_search_char k v l x :
+  sorted l ->
+  (src_search k v l = Some x <->
+   In x l /\ is_cand k v x /\ forall y, In y l -> is_cand k v y -> r_ver y <= r_ver x).
+Proof.
+  intro Hs. split; [apply src_search_some; exact Hs|].
+  intros (Hin & Hc & Hmax). destruct (src_search k v l) as [x'|] eqn:E.
+  - destruct (src_search_some _ _ _ _ Hs E) as (Hin' & Hc' & Hmax'). f_equal.
+    pose proof (Hmax x' Hin' Hc'). pose proof (Hmax' x Hin Hc).
+    apply (sorted_unique l); auto; [destruct Hc, Hc'; congruence | lia].
+  - exfalso. exact (src_search_none _ _ _ Hs E x Hin Hc).
+Qed.
+
+(** * The key set of the specification *)
+Definition blt (a b : bytes) : Prop := bytes_cmp a b = Lt.
+
+Lemma ins_key_in k l x : In x (ins_key k l) <-> x = k \/ In x l.
+Proof.
+  induction l as [|y l IH]; cbn [ins_key]; [cbn; intuition|].
+  destruct (bytes_cmp k y) eqn:E.
+  - apply bytes_cmp_eq in E. subst. cbn [In]. intuition.
+  - cbn [In]. intuition.
+  - cbn [In]. rewrite IH. intuition.
+Qed.
+
+Lemma ins_key_sorted k l : StronglySorted blt l -> StronglySorted blt (ins_key k l).
+Proof.
+  induction l as [|y l IH]; intro H; cbn [ins_key]; [repeat constructor|].
+  inversion H as [|? ? Hs Hf]; subst. destruct (bytes_cmp k y) eqn:E; [exact H| |].
+  - constructor; [exact H|]. constructor; [exact E|]. eapply Forall_impl; [|exact Hf].
+    intros a Ha. unfold blt in *. eapply bytes_cmp_lt_trans; eauto.
+  - constructor; [now apply IH|]. apply Forall_forall. intros a Ha. apply ins_key_in in Ha as [->|Ha].
+    + unfold blt. now apply bytes_cmp_gt_lt.
+    + rewrite Forall_forall in Hf. auto.
+Qed.
+
+Lemma key_set_in ks x : In x (key_set ks) <-> In x ks.
+Proof. induction ks as [|k ks IH]; cbn [key_set fold_right In]; [tauto|]. fold (key_set ks). rewrite ins_key_in, IH. intuition. Qed.
+
+Lemma key_set_sorted ks : StronglySorted blt (key_set ks).
+Proof. induction ks as [|k ks IH]; cbn [key_set fold_right]; [constructor|]. now apply ins_key_sorted. Qed.
+
+Lemma ssorted_filter {A} (R : A -> A -> Prop) f l : StronglySorted R l -> StronglySorted R (filter f l).
+Proof.
+  induction 1 as [|x l Hs IH Hf]; cbn [filter]; [constructor|]. destruct (f x); [|exact IH].
+  constructor; [exact IH|]. rewrite Forall_forall in *. intros y Hy. apply filter_In in Hy as [Hy _]. auto.
+Qed.
+
+Lemma opt_list_in {A} (l : list (option A)) x : In x (opt_list l) <-> In (Some x) l.
+Proof.
+  induction l as [|[y|] l IH]; cbn [opt_list In]; [tauto| |].
+  - rewrite IH. split; [intros [->|H]; auto | intros [H|H]; [injection H as ->; auto | auto]].
+  - rewrite IH. split; [auto | intros [H|H]; [discriminate | auto]].
+Qed.
+
+Lemma ukeys_in ws u : In u (ukeys ws []) <-> exists w, In w ws /\ default_ukey (r_key w) = Some u.
+Proof.
+  unfold ukeys. rewrite key_set_in, opt_list_in, in_map_iff, app_nil_r. split.
+  - intros (w & E & Hw). eauto.
+  - intros (w & Hw & E). eauto.
+Qed.
+
+(** one record per key, keys ascending: a sorted stream *)
+Lemma flat_map_keys_sorted (f : bytes -> list rec) ks :
+  StronglySorted blt ks ->
+  (forall u x, In x (f u) -> r_key x = enc_cf_key 0 u) ->
+  (forall u, (length (f u) <= 1)%nat) ->
+  sorted (flat_map f ks).
+Proof.
+  intros Hs Hk H1. induction Hs as [|u ks Hs IH Hf]; cbn [flat_map]; [constructor|].
+  apply ssorted_app; [|exact IH|].
+  - specialize (H1 u). destruct (f u) as [|a [|b l]]; [constructor | repeat constructor | cbn in H1; lia].
+  - intros a b Ha Hb. apply in_flat_map in Hb as (u' & Hu' & Hb). rewrite Forall_forall in Hf.
+    unfold rlt, rcmp. apply kcmp_lt. left. rewrite (Hk _ _ Ha), (Hk _ _ Hb), enc0_cmp. now apply Hf.
+Qed.
+
+Lemma split_base_enc0 u : split_base (enc_cf_key 0 u) = (0, u).
+Proof. reflexivity. Qed.
+
+(** * Forward transaction scans *)
+Definition sopts_of (o : topts) (t : option bytes) : sopts :=
+  {| so_rev := o_rev o; so_all := o_all o; so_pik := o_pik o; so_prefix := o_prefix o; so_since := o_since o;
+     so_lower := o_lower o; so_upper := o_upper o; so_target := t |}.
+Definition item_sitem (i : item) : sitem := {| s_key := i_key i; s_ver := i_ver i; s_val := i_val i |}.
+
+Definition chosen_spec (now : N) (ws : list rec) (readTs : N) (so : sopts) : list rec :=
+  flat_map (fun u => match latest_at ws (sbase u) readTs with
+                     | Some x => if live now x && ver_ok so (r_ver x) then [x] else []
+                     | None => []
+                     end) (filter (key_ok so) (ukeys ws [])).
+
+Lemma latest_at_key ws k v x : latest_at ws k v = Some x -> r_key x = k /\ In x ws.
+Proof.
+  intro H. pose proof (latest_at_is_latest ws k v) as Hl. rewrite H in Hl. cbn [is_latest] in Hl.
+  destruct Hl as (Hin & [Hk _] & _). auto.
+Qed.
+
+Lemma spec_scan_chosen now ws readTs so :
+  so_rev so = false -> so_all so = false ->
+  spec_scan now ws [] readTs so = map (fun x => to_item (snd (split_base (r_key x))) x) (chosen_spec now ws readTs so).
+Proof.
+  intros Hr Ha. unfold spec_scan, chosen_spec. rewrite Hr.
+  induction (filter (key_ok so) (ukeys ws [])) as [|u ks IH]; cbn [flat_map map]; [reflexivity|].
+  rewrite map_app, <- IH. f_equal. unfold key_items. rewrite Ha. unfold view, view_at. rewrite N.eqb_refl. cbn [pending_of find].
+  destruct (latest_at ws (sbase u) readTs) as [x|] eqn:E; [|reflexivity].
+  destruct (live now x && ver_ok so (r_ver x)); [|reflexivity]. cbn [map].
+  destruct (latest_at_key _ _ _ _ E) as [Hk _]. rewrite Hk. unfold sbase. rewrite split_base_enc0. reflexivity.
+Qed.
+
+Lemma live_dead now x : live now x = negb (deadb now x).
+Proof. reflexivity. Qed.
+
+Lemma ver_since o t x : ver_ok (sopts_of o t) (r_ver x) = since_ok o x.
+Proof.
+  unfold ver_ok, since_ok. cbn [sopts_of so_since]. destruct (0 <? o_since o); cbn [negb andb orb]; [|reflexivity].
+  rewrite N.ltb_antisym. reflexivity.
+Qed.
+
+Lemma key_ok_filt o x u :
+  r_key x = enc_cf_key 0 u -> o_rev o = false -> keyfilt o x = key_ok (sopts_of o None) u.
+Proof.
+  intros Hk Hr. unfold keyfilt, key_ok. rewrite Hk, split_base_enc0. cbn [sopts_of so_lower so_upper so_prefix so_pik so_target so_rev].
+  change (0 =? cf_default) with true. cbn [andb]. rewrite andb_true_r.
+  rewrite (bytes_leb_ltb (o_lower o) u).
+  assert (bytes_ltb u (o_upper o) = negb (bytes_leb (o_upper o) u)) as -> by (rewrite bytes_leb_ltb; now rewrite negb_involutive).
+  unfold nonemptyb, nonempty.
+  destruct (o_lower o), (o_upper o), (o_prefix o); cbn [negb andb orb]; try reflexivity;
+    repeat (rewrite ?andb_true_r, ?negb_involutive); reflexivity.
+Qed.
+
+Theorem txn_scan_fwd now s ws readTs o :
+  iter_inv s -> content_ok s ws -> seq_functional ws -> (forall w, In w ws -> wf_key w = true) ->
+  o_rev o = false -> o_all o = false ->
+  map item_sitem (txn_list current now s readTs [] o ARewind) = spec_scan now ws [] readTs (sopts_of o None)
+  /\ Forall (fun i => i_cf i = cf_default) (txn_list current now s readTs [] o ARewind).
+Proof.
+  intros Hi Hc Hf Hw Hr Ha.
+  assert (Hf' : seq_functional (all_recs (tiers_of s))).
+  { intros a b Ha' Hb'. apply Hf; now apply (proj1 Hc). }
+  assert (Hlat : forall k, latest_at ws k readTs = src_search k readTs (fstream s)).
+  { intro k. rewrite (fstream_get s k readTs Hi Hf'). symmetry. apply get_latest; auto; apply Hi. }
+  pose proof (fstream_sorted s Hi) as HsS.
+  set (T := filter (visible readTs) (fstream s)).
+  assert (HsT : sorted T) by now apply sorted_filter.
+  assert (HTin : forall y, In y T <-> In y (fstream s) /\ r_ver y <= readTs).
+  { intro y. unfold T. rewrite filter_In. unfold visible. now rewrite N.leb_le. }
+  assert (HTws : forall y, In y T -> In y ws).
+  { intros y Hy. apply HTin in Hy as [Hy _]. apply (proj1 Hc). now apply fstream_sound. }
+  assert (Hlist : txn_list current now s readTs [] o ARewind = map mk_item (pick (good now o) None T)).
+  { unfold txn_list. rewrite Hr, collect_trun, (txn_stream_fwd s readTs Hi). fold T.
+    apply trun_pick; auto.
+    - apply Forall_forall. intros y Hy. apply Hw. now apply HTws.
+    - apply Forall_forall. intros y Hy. now apply HTin in Hy as [_ Hy].
+    - reflexivity. }
+  assert (Hsame : pick (good now o) None T = chosen_spec now ws readTs (sopts_of o None)).
+  { apply sorted_ext.
+    - now apply pick_sorted.
+    - unfold chosen_spec. apply flat_map_keys_sorted.
+      + apply ssorted_filter, key_set_sorted.
+      + intros u x Hx. destruct (latest_at ws (sbase u) readTs) as [z|] eqn:E; [|contradiction].
+        destruct (live now z && ver_ok (sopts_of o None) (r_ver z)); [|contradiction]. destruct Hx as [<-|[]].
+        now destruct (latest_at_key _ _ _ _ E).
+      + intro u. destruct (latest_at ws (sbase u) readTs) as [z|]; [|cbn; lia].
+        destruct (live now z && ver_ok (sopts_of o None) (r_ver z)); cbn; lia.
+    - intro x. rewrite (pick_in (good now o) T None x HsT). unfold chosen_spec. rewrite in_flat_map. split.
+      + intros (Hin & Hg & _ & Hmax).
+        pose proof (Hw x (HTws x Hin)) as Hwx. destruct (wf_key_enc x Hwx) as (cf & u & Hsp & Hk & _ & _).
+        unfold good in Hg. apply andb_true_iff in Hg as [Hg Hlive]. apply andb_true_iff in Hg as [Hkf Hsi].
+        assert (cf = 0) as ->.
+        { unfold keyfilt in Hkf. rewrite Hsp in Hkf. destruct (cf =? cf_default) eqn:E; [now apply N.eqb_eq in E | discriminate]. }
+        exists u. split.
+        * apply filter_In. split; [apply ukeys_in; exists x; split; [now apply HTws|] | now rewrite <- (key_ok_filt o x u Hk Hr)].
+          unfold default_ukey. unfold split_base in Hsp. destruct (decode_key_cf (r_key x)) as [[c' u'] ok] eqn:Ed.
+          injection Hsp as -> ->. unfold wf_key in Hwx. rewrite Ed in Hwx. apply andb_true_iff in Hwx as [-> _]. reflexivity.
+        * assert (El : latest_at ws (sbase u) readTs = Some x).
+          { rewrite Hlat. apply src_search_char; [exact HsS|]. apply HTin in Hin as [HinS Hv].
+            split; [exact HinS|]. split; [split; [exact Hk | exact Hv]|].
+            intros y Hy [Hyk Hyv]. apply Hmax; [apply HTin; now split | rewrite Hyk, Hk; reflexivity]. }
+          rewrite El, live_dead, Hlive, (ver_since o None x), Hsi. now left.
+      + intros (u & Hu & Hx). apply filter_In in Hu as [_ Hko].
+        destruct (latest_at ws (sbase u) readTs) as [z|] eqn:E; [|contradiction].
+        destruct (live now z && ver_ok (sopts_of o None) (r_ver z)) eqn:Elv; [|contradiction]. destruct Hx as [<-|[]].
+        apply andb_true_iff in Elv as [Hlive Hvo].
+        rewrite Hlat in E. apply (src_search_char _ _ _ _ HsS) in E as (HinS & [Hk Hv] & Hmax).
+        assert (HinT : In z T) by (apply HTin; now split).
+        split; [exact HinT|]. split.
+        * unfold good. rewrite (key_ok_filt o z u Hk Hr), Hko, <- (ver_since o None z), Hvo, <- live_dead, Hlive. reflexivity.
+        * split; [reflexivity|]. intros y Hy Hyk. apply HTin in Hy as [Hy Hyv]. apply Hmax; [exact Hy|]. split; [congruence | exact Hyv]. }
+  split.
+  - rewrite Hlist, Hsame, (spec_scan_chosen now ws readTs (sopts_of o None) Hr Ha), !map_map.
+    apply map_ext. intro x. unfold mk_item, item_sitem, to_item. destruct (split_base (r_key x)); reflexivity.
+  - rewrite Hlist. apply Forall_forall. intros i Hi'. apply in_map_iff in Hi' as (x & <- & Hx).
+    apply (pick_in (good now o) T None x HsT) in Hx as (_ & Hg & _).
+    unfold good, keyfilt in Hg. unfold mk_item. destruct (split_base (r_key x)) as [cf u]. cbn [i_cf].
+    destruct (cf =? cf_default) eqn:E; [now apply N.eqb_eq in E | discriminate].
+Qed.
